@@ -409,16 +409,31 @@ class _StubOp:
 
 def sc_composite(V, k=3, rows=1):
     """`rows`: displacement rows each part returns (1 = one vector for the whole group; N = one row per atom of
-    the moving group, as Rotation and TranslationRotation do)."""
+    the moving group, as Rotation and TranslationRotation do; "mixed" = per-atom rows, one row and a flat
+    vector together, e.g. Rotation + Translation: the sum is the broadcast sum)."""
     from quansino.operations.composite import CompositeOperation
 
-    parts = [V.array(f"part{i}_", (rows, 3)) for i in range(k)]
+    if rows == "mixed":
+        shapes = [(2, 3), (1, 3), (3,)][:k]
+    else:
+        shapes = [(rows, 3)] * k
+    parts = [V.array(f"part{i}_", sh) for i, sh in enumerate(shapes)]
     ops = [_StubOp(p) for p in parts]
     comp = CompositeOperation(ops)
-    r = _conv(V, comp.calculate(Ctx(None, None)))
-    tot = sum(parts[1:], parts[0])
-    V.prove(np.shape(r) == (rows, 3) and V.eq(r, tot), "sum-of-parts", info=f"CompositeOperation:rows={rows}:shape={np.shape(r)}")
-    V.prove(all(o.calls == 1 for o in ops), "each-part-once", info=f"CompositeOperation:rows={rows}")
+    info = f"CompositeOperation:shapes={shapes}"
+    try:
+        r = _conv(V, comp.calculate(Ctx(None, None)))
+    except (symx.PathAbort, symx.BoundHit, symx.Unsupported, symx.ReplayMismatch):
+        raise
+    except Exception as ex:  # noqa: BLE001
+        V.fail("sum-of-parts", info=info + ":" + type(ex).__name__)
+        return
+    tot = parts[0]
+    for p_ in parts[1:]:
+        tot = tot + p_
+    want_shape = np.broadcast_shapes(*shapes)
+    V.prove(np.shape(r) == want_shape and V.eq(r, np.broadcast_to(tot, want_shape)), "sum-of-parts", info=info + f":shape={np.shape(r)}")
+    V.prove(all(o.calls == 1 for o in ops), "each-part-once", info=info)
     V.reach("done")
 
 
@@ -523,6 +538,7 @@ def _plan(tier):
         plan.append(("rotation", dict(n=2, cell=c, with_translation=True), ("done",)))
     plan.append(("composite", dict(k=3), ("done",)))
     plan.append(("composite", dict(k=2, rows=3), ("done",)))
+    plan.append(("composite", dict(k=3, rows="mixed"), ("done",)))
     for op in ("Isotropic", "Anisotropic", "Shape"):
         for masked in (False, True):
             plan.append(("deformation", dict(op=op, masked=masked), ("done",)))
